@@ -5,7 +5,8 @@
    Model/Cmap.v ([parse], [map_glyph], [font_map_glyph]) whose conformance is C06.
    [lookup0 M c] is the kept mapping of code c: its glyph, or 0 when c is not kept. *)
 From AV Require Import Base.Prelude Gen.CmapPrefs Model.MacRoman Model.Cmap Model.CmapSpec Model.CmapSubset
-  Proofs.CmapProofs Proofs.CmapSubsetProofs Proofs.CmapWriteProofs Proofs.CmapKeepProofs Proofs.CmapSubsetTop.
+  Proofs.CmapProofs Proofs.CmapSubsetProofs Proofs.CmapWriteProofs Proofs.CmapKeepProofs Proofs.CmapSubsetTop
+  Proofs.CmapSubsetLift.
 Open Scope Z_scope.
 
 (* ---- 1. which mappings are kept (MappingsToKeep::new) ---------------------------------------- *)
@@ -181,6 +182,25 @@ Theorem C08_cmap_format0 : forall m M bytes,
 Proof. exact build_cmap_format0. Qed.
 Print Assumptions C08_cmap_format0.
 
+(* ---- 6. lifted through C06: the subset font against the source font ----------------------------- *)
+
+(* PARTIAL (Unicode source sub-tables, unrestricted target, output selected as a Unicode sub-table;
+   see docs/C08.md for what is outside): every character maps to the new id of the glyph the source
+   font maps it to when that glyph is retained and not 0, and to glyph 0 otherwise.
+   [expected_glyph st ids u] = match lookup st u with Some g => if g <> 0 and g in ids then
+   new_id ids g else 0 | None => 0. *)
+Theorem C08_subset_lookup_unicode_partial : forall m src os2 ids out recs r st_s first,
+  bytes_ok src = true ->
+  parse_cmap src = Ok recs -> find_good_cmap_subtable recs = Some (EUnicode, r) ->
+  parse (slice_from src (er_offset r)) = Ok st_s ->
+  supported st_s -> strictly_well_formed st_s ->
+  len ids <= 65535 ->
+  subset_cmap m src os2 ids TUnrestricted = Ok out ->
+  charmap_info out = Ok (EUnicode, 12) ->
+  forall u, is_char u = true -> font_lookup out first u = Ok (expected_glyph st_s ids u).
+Proof. exact subset_lookup_unicode. Qed.
+Print Assumptions C08_subset_lookup_unicode_partial.
+
 (* ---- non-vacuity ------------------------------------------------------------------------------ *)
 
 (* gaps of exactly 3 (same segment, three 0 entries) and 4 (new segment); a compact run of five
@@ -231,4 +251,28 @@ Proof. vm_compute. reflexivity. Qed.
    not fit a 16 bit length is refused by the writer, never written truncated *)
 Example write_refuses_long_table :
   write_subtable Release (F4 0 [65535] [65535] [1] [0] (repeat 1 (Z.to_nat 32760))) = Err BadValue.
+Proof. vm_compute. reflexivity. Qed.
+
+(* the lifted statement on a concrete source: (3,1) format 4 with 'A','B' -> glyphs 5,6; glyphs
+   0, 9, 6 retained: 'B' -> new id 2, 'A' -> 0 *)
+Definition ex_src : list Z :=
+  [0;0; 0;1; 0;3; 0;1; 0;0;0;12;
+   0;4; 0;32; 0;0; 0;4; 0;0; 0;0; 0;0; 0;66; 255;255; 0;0; 0;65; 255;255; 255;196; 0;1; 0;0; 0;0].
+Example ex_subset_end_to_end :
+  match subset_cmap Debug ex_src (Ok None) [0; 9; 6] TUnrestricted with
+  | Ok out => (charmap_info out, font_lookup out None 65, font_lookup out None 66, font_lookup out None 67)
+  | _ => (Err OtherErr, Err OtherErr, Err OtherErr, Err OtherErr)
+  end = (Ok (EAppleRoman, 12), Ok 0, Ok 2, Ok 0).
+Proof. vm_compute. reflexivity. Qed.
+
+(* the same with the codes U+0100, U+0101 (not Mac Roman): the output is a Unicode format 4 table and
+   the hypothesis of C08_subset_lookup_unicode_partial holds *)
+Definition ex_src2 : list Z :=
+  [0;0; 0;1; 0;3; 0;1; 0;0;0;12;
+   0;4; 0;32; 0;0; 0;4; 0;0; 0;0; 0;0; 1;1; 255;255; 0;0; 1;0; 255;255; 255;5; 0;1; 0;0; 0;0].
+Example ex_subset_end_to_end_unicode :
+  match subset_cmap Debug ex_src2 (Ok None) [0; 9; 6] TUnrestricted with
+  | Ok out => (charmap_info out, font_lookup out None 256, font_lookup out None 257, font_lookup out None 258)
+  | _ => (Err OtherErr, Err OtherErr, Err OtherErr, Err OtherErr)
+  end = (Ok (EUnicode, 12), Ok 0, Ok 2, Ok 0).
 Proof. vm_compute. reflexivity. Qed.
